@@ -203,6 +203,33 @@ def h_lifecycle(ctx, ndef, plan, in_handler=(), requit=None, via_event=False):
   ctx.witness('done')
 
 
+def h_caller_list(ctx):
+  """a waiter waits for the components named when it was declared: the caller's list object may be changed afterwards (names appended for a
+  second, staged declaration; names removed) without changing what an earlier waiter waits for"""
+  pc, core = fresh_core(ctx)
+  revent = ctx.pox('pox.lib.revent.revent')
+  class Comp(revent.EventMixin): _eventMixin_events = set()
+  fired = []
+  a, b, c = NAMES
+  deps = [a]
+  core.call_when_ready(lambda: fired.append('f'), deps)
+  deps.append(b)                                   # staged declaration: the same list, extended, for a second waiter
+  core.call_when_ready(lambda: fired.append('g'), deps)
+  deps2 = [b, c]
+  core.call_when_ready(lambda: fired.append('h'), deps2)
+  deps2.remove(c)                                  # the caller recycles its list
+  order = [[a, b, c], [b, a, c], [c, b, a], [b, c, a], [a, c, b], [c, a, b]][int(ctx.int('order', 0, 5))]
+  reg = set()
+  for n in order:
+    core.register(n, Comp()); reg.add(n)
+    exp = set()
+    if a in reg: exp.add('f')
+    if a in reg and b in reg: exp.add('g')
+    if b in reg and c in reg: exp.add('h')
+    ctx.check('after registering %s: exactly the waiters whose declared components are all registered have fired, once each' % n, sorted(fired) == sorted(exp))
+  ctx.witness('done')
+
+
 def obligations(tier):
   thorough = tier != 'quick'
   plans = ['RW', 'WR', 'WRR', 'RWR', 'WWR', 'WRW', 'LR', 'RL', 'WLR', 'LRW', 'WWRR', 'WRRR', 'RWWR', 'LWRR']
@@ -222,5 +249,6 @@ def obligations(tier):
   return [
     Obligation('O1_rendezvous', h_rendezvous, [dict(plan=p) for p in plans], witnesses=('done',), max_decisions=20000,
                desc='fired callbacks == reference closure after every operation; listener wiring; pending waiters'),
+    Obligation('O3_caller_list', h_caller_list, [dict()], witnesses=('done',), desc='the dependency list handed to call_when_ready is the caller\'s: changing it later does not change what a declared waiter waits for'),
     Obligation('O2_lifecycle', h_lifecycle, life, witnesses=('done',), desc='GoingUp, Up (after last deferral), GoingDown, Down exactly once, in order'),
   ]
